@@ -6,6 +6,7 @@ import (
 	"strings"
 
 	"gldapverif/an"
+	"gldapverif/report"
 
 	"golang.org/x/tools/go/ssa"
 )
@@ -19,7 +20,7 @@ func init() {
 		"C07-accept (a failing Accept that is not the shutting-down case has a path back to the accept loop), C07-noexit (no os.Exit / log.Fatal / runtime.Goexit / undischarged explicit panic reachable from connection or request goroutines), " +
 		"C07-contained (connection/request goroutines never cancel the server context or close the listener), C07-lockbalance (every Unlock/RUnlock, explicit or deferred, finds its mutex locked on every path: unlocking an unlocked mutex is a fatal error no recover() contains). Decides fencing and survival of the accept loop; does not decide that bystanders receive correct answers."
 	Descriptions["C11"] = "Necessary structural condition for bounded Stop: C11-sites (blocking socket I/O sites on connection/request goroutines enumerated), " +
-		"C11-waker-lifetime (a watcher goroutine that can be told to stop is told so only after (*conn).close has waited for the handlers), C11-waker (some code that runs asynchronously to those goroutines closes or deadlines every connection's socket once shutdownCtx is cancelled, and it is started for every accepted connection before its first read), " +
+		"C11-accounting (every connWg.Add is matched by a Done on every path, rules C12-done-last / C12-add-vs-wait), C11-waker-lifetime (a watcher goroutine that can be told to stop is told so only after (*conn).close has waited for the handlers), C11-waker (some code that runs asynchronously to those goroutines closes or deadlines every connection's socket once shutdownCtx is cancelled, and it is started for every accepted connection before its first read), " +
 		"C11-stop-order (listener.Close and cancel precede connWg.Wait), C11-run-nil (shutdown exits of Run return nil), C11-nolock (connection goroutines never take Server.mu, which Stop holds across Wait). The time bound itself is not decided."
 	Descriptions["C17"] = "C17-guard (every store of true to Server.listenerReady is control-dependent on net.Listen's error being nil), C17-who (the flag is written only in Run (true) / Stop (false), under Server.mu), " +
 		"C17-errors (no error return of Run before or at the listen failure follows a store of true), C17-getter (Ready returns the field under the lock). Kernel-level accept behaviour is not decided."
@@ -213,6 +214,13 @@ func checkC17(c *Ctx) {
 	}
 	R.Floor("C17-errors", 2)
 	R.NotDecided = append(R.NotDecided, "that the kernel completes handshakes from the moment of bind", "name resolution inside validateAddrPort")
+	// ---- C17-accept-retry: between Ready()==true and Stop the server keeps accepting: a temporary Accept error
+	// must not end Run (whose deferred listener.Close would stop the listening while Ready() stays true)
+	if errSucc, head, ok := c.acceptErrBranch(m); ok {
+		c.checkAcceptRetry("C17-accept-retry", m, errSucc, head)
+	} else {
+		R.Unknown("C17-accept-retry", "(*Server).Run: accept error handling", c.pos(m.accept), "cannot find the err != nil test on Accept's error")
+	}
 }
 
 func retKindListen(ret *ssa.Return, listen *ssa.Call) string {
@@ -841,6 +849,7 @@ func checkC07(c *Ctx) {
 			R.Fail("C07-accept", "(*Server).Run: accept errors other than shutdown are retried", c.pos(g.If), "every Accept error makes Run return: a transient error (EMFILE at descriptor exhaustion) stops the server from accepting for good")
 		}
 		// shutdown returns keep returning nil (shared with C11-run-nil)
+		c.checkAcceptRetry("C07-accept", m, errSucc, head)
 	}
 
 	// ---- C07-accept-nonblocking: the accept goroutine itself never performs per-connection I/O
@@ -1007,6 +1016,72 @@ func checkC07(c *Ctx) {
 	R.Floor("C07-lockbalance", 10)
 	R.Extra["C07-lockbalance/unlock-sites"] = nUnl
 	R.NotDecided = append(R.NotDecided, "that bystander connections keep receiving correct responses (behavioural)", "resource exhaustion inside libraries")
+}
+
+// acceptErrBranch finds the successor taken when Accept returned an error and
+// the head of the accept loop.
+func (c *Ctx) acceptErrBranch(m *serverModel) (errSucc, head *ssa.BasicBlock, ok bool) {
+	errIfs := ifsOn(m.run, func(v ssa.Value) bool {
+		x, _, ok := an.NilCheck(v)
+		if !ok {
+			return false
+		}
+		ex, ok := an.Strip(x).(*ssa.Extract)
+		return ok && ex.Tuple == ssa.Value(m.accept) && ex.Index == 1
+	})
+	if len(errIfs) != 1 {
+		return nil, nil, false
+	}
+	g := errIfs[0]
+	v, _ := an.Not(g.If.Cond)
+	_, trueMeansNil, _ := an.NilCheck(v)
+	return succOn(g.If, trueMeansNil == g.Neg), loopHeadOf(m.accept), true
+}
+
+// checkAcceptRetry: a temporary Accept error (net.Error.Temporary(): EMFILE,
+// ENFILE, ECONNABORTED ...) never makes Run return. Either the error branch
+// tests Temporary() and no path from its true edge reaches a return without
+// going back to the accept loop, or no return other than the closed-listener
+// case is reachable from the error branch at all.
+func (c *Ctx) checkAcceptRetry(rule string, m *serverModel, errSucc, head *ssa.BasicBlock) {
+	R := c.R
+	key := "(*Server).Run: a temporary Accept error never ends Run"
+	isTemp := func(v ssa.Value) bool {
+		call, ok := v.(*ssa.Call)
+		return ok && call.Common().IsInvoke() && call.Common().Method.Name() == "Temporary"
+	}
+	isRet := func(in ssa.Instruction) bool { _, ok := in.(*ssa.Return); return ok }
+	var temps []condIf
+	for _, x := range ifsOn(m.run, isTemp) {
+		if x.If.Block() == errSucc || an.Search(an.Point{B: errSucc, I: 0}, isInstr(x.If), inBlock(head)) != nil {
+			temps = append(temps, x)
+		}
+	}
+	if len(temps) == 0 {
+		bad := ""
+		for _, ret := range an.Returns(m.run) {
+			if hasFact(ret.Block(), true, isClosedAtom) {
+				continue
+			}
+			if w := an.Search(an.Point{B: errSucc, I: 0}, isInstr(ret), inBlock(head)); w != nil {
+				bad = c.trail(w)
+			}
+		}
+		if bad == "" {
+			R.OK(rule, key, c.P.Pos(m.run.Pos()), "no return other than the closed-listener case is reachable from the Accept error branch")
+		} else {
+			R.Fail(rule, key, c.pos(m.accept), "the Accept error branch does not single out temporary errors (net.Error.Temporary()) and can return: running out of file descriptors while a client connects ends Run and closes the listener although Stop was never called (Ready() stays true): "+bad)
+		}
+		return
+	}
+	for _, t := range temps {
+		tSucc := succOn(t.If, !t.Neg)
+		if w := an.Search(an.Point{B: tSucc, I: 0}, isRet, inBlock(head)); w != nil {
+			R.Fail(rule, key, c.pos(t.If), "a temporary Accept error can still make Run return: "+c.trail(w))
+		} else {
+			R.OK(rule, key, c.pos(t.If), "from Temporary() == true every path goes back to the accept loop")
+		}
+	}
 }
 
 // dischargeExplicitPanic: an explicit panic is acceptable only when its guard
@@ -1310,6 +1385,26 @@ func checkC11(c *Ctx) {
 				}
 			}
 		})
+	}
+
+	// ---- C11-accounting: Stop() ends in connWg.Wait(): it returns only if every connWg.Add is matched by a
+	// Done on every path (rules of C12, imported)
+	{
+		tmp := &Ctx{P: c.P, R: report.New("tmp"), Tier: c.Tier}
+		checkC12(tmp)
+		n := 0
+		for _, o := range tmp.R.Obls {
+			if o.Rule == "C12-done-last" || o.Rule == "C12-add-vs-wait" {
+				n++
+				switch o.Status {
+				case report.Discharged:
+					R.OK("C11-accounting", o.Construct, o.Pos, o.Detail)
+				default:
+					R.Fail("C11-accounting", o.Construct, o.Pos, o.Detail)
+				}
+			}
+		}
+		R.Floor("C11-accounting", 2)
 	}
 
 	// ---- C11-stop-order
